@@ -2,12 +2,16 @@
 """Sensitivity runner: applies each hand-written mutant (sens/mutants.py) to a scratch copy of /repo,
 optionally runs the package's existing tests, runs the quick check of the mutant's property against the
 copy (VERIF_REPO), records killed/survived, removes the copy.  usage: run_mutants.py [--tests] [--only substr] [--jobs N] [--also P1,P2]"""
+HSNAP = None
 import json, os, shutil, subprocess, sys, time
 from concurrent.futures import ThreadPoolExecutor
 HERE = os.path.dirname(os.path.abspath(__file__))
 sys.path.insert(0, HERE)
 from mutants import M
 VERIF = os.path.dirname(HERE)
+import tempfile
+HSNAP = tempfile.mkdtemp(prefix="vf-harness-")
+shutil.rmtree(HSNAP); shutil.copytree("/verif/harness", HSNAP)
 args = sys.argv[1:]
 with_tests = "--tests" in args
 only = args[args.index("--only") + 1] if "--only" in args else None
@@ -40,7 +44,7 @@ def one(m):
                 res["detail"] = t.stdout[-600:]
                 return res
         for prop in [m["prop"]] + also:
-            env = dict(os.environ, VERIF_REPO=d, VERIF_WORK=d + ".work", VERIF_EVIDENCE_DIR=d + ".ev", VERIF_BUILD=d + ".build")
+            env = dict(os.environ, VERIF_REPO=d, VERIF_WORK=d + ".work", VERIF_EVIDENCE_DIR=d + ".ev", VERIF_BUILD=d + ".build", VERIF_HARNESS=HSNAP)
             t0 = time.time()
             c = subprocess.run([os.path.join(VERIF, "check"), prop, "--tier", "quick"], cwd=VERIF, env=env, capture_output=True, text=True)
             wall = round(time.time() - t0, 1)
